@@ -27,6 +27,9 @@ ASSUMPTIONS = ["finite forecasts and observations (an infinite forecast makes fc
                "stored as float32: the implementation then averages in float32)",
                "stored dtype of fcst / obs / thetas is float64, float32, int64 or int32 (signed; no unsigned integers); an "
                "integer-dtype array holds whole numbers and no NaN; the model and the Spec see the same numbers (exact in SV.Fl)",
+               "state stream: the caller changes its own numpy-backed arrays / lists between the calls; every call is checked "
+               "against the kink set / Lean Spec scores and loss of the values at the time of THAT call (never an earlier result), "
+               "and the calls must leave the caller's objects unchanged",
                "murphy_score value batches: equal coordinate label sets on fcst and obs (any stored order); differing label "
                "sets only through the labelled murphy_thetas stream (curve shape and integral = loss over the shared labels)"]
 MANIFEST = dict(
@@ -60,8 +63,13 @@ RULE = ("2-D (a x b) forecast/obs arrays of dyadic values from a small pool (40-
         "murphy_thetas, plus a labelled stream: 2-3 sources on stations x lead times (x member) whose label sets / dims "
         "differ (strict subset of obs or of another source, extra labels nobody else has, no label shared with obs, sources "
         "partitioning the stations, missing / extra / transposed dims, shuffled stored order), values mostly unique to their "
-        "point, 30 % of obs copied from a source at the same labels; distinct = canonical input hash; non-trivial = some finite output and at least one theta inside a "
-        "data range")
+        "point, 30 % of obs copied from a source at the same labels; plus a STATE stream: sequences of 3-6 murphy_thetas / "
+        "murphy_score calls in one process on the SAME list / DataArray / thetas objects with one caller action between two "
+        "calls (sources.append / insert / pop / item assignment, obs.values[i, j] = v, da.loc[...] = v, da[dict(...)] = v, "
+        "thetas[i] = v, thetas.append, other left_limit_delta / functional on the same objects, new objects of equal content, "
+        "a new list holding the same arrays, an unrelated data set in between, no change), values mostly unique so a change "
+        "moves the kink set; distinct = canonical input hash; non-trivial = some finite output and at least one theta inside a "
+        "data range (state stream: an in-place change that changes the kink set)")
 
 FUNCS = ["quantile", "huber", "expectile"]
 FINDINGS = os.environ.get("C11_FINDINGS", "") == "1"
@@ -849,6 +857,338 @@ def tag_labelled(ctx, tc, prefix):
                                  else "other"))
 
 
+# ------------------------------------------------------------------------------------------ state across calls
+# murphy_thetas / murphy_score called REPEATEDLY in one process on the SAME list / DataArray objects, which are modified in
+# place between the calls (sources.append(...), obs.values[i, j] = v, da[dict(a=i, b=j)] = v, thetas[i] = v ...), on new
+# objects of equal content, with other options on the same objects, and with an unrelated data set in between.  Every
+# call must be a function of the CURRENT values and options: the expected theta set is the kink set of the current
+# values, the expected scores / loss come from the Lean Spec evaluated on the current values - never from an earlier call.
+STATE_OPS = [("append", 20), ("set_obs", 14), ("set_src", 14), ("set_obs_da", 6), ("set_src_da", 6), ("replace_src", 6),
+             ("pop", 5), ("insert", 4), ("same", 7), ("rebuild", 5), ("relist", 3), ("delta", 5), ("fn", 4),
+             ("set_theta", 6), ("append_theta", 4), ("other", 5)]
+STATE_INPLACE = ("append", "set_obs", "set_src", "set_obs_da", "set_src_da", "replace_src", "pop", "insert")
+
+
+def _state_b(j):
+    return 10 + j
+
+
+def gen_state_case(rng, fn=None):
+    fn = fn or rng.choice(FUNCS)
+    ns = rng.choice([1, 1, 2, 2, 3])
+    na, nb = rng.choice([1, 2, 2, 3]), rng.choice([1, 2, 3, 4])
+    r = rng.random()
+    if r < 0.5:
+        dt = lambda: "float64"
+    elif r < 0.7:
+        one = rng.choice(["int64", "int32", "float32", "float32"])
+        dt = lambda: one
+    else:
+        dt = lambda: rng.choice(DTYPES)
+    sdt = [dt() for _ in range(ns)]
+    odt = dt() if rng.random() < 0.6 else "float64"
+    extra_dt = [dt() for _ in range(8)]           # storage of the sources the steps add
+    whole = any(_is_int(d) for d in sdt + [odt] + extra_dt)
+    # mostly values that occur nowhere else: an in-place change then really changes the kink set
+    uniq = [float(k) for k in range(-20, 21)] if whole else [k / 4 for k in range(-40, 41)] + [k / 1024 for k in range(1, 40, 2)]
+    rng.shuffle(uniq)
+    pool = [uniq.pop() for _ in range(3)]
+    nanr = rng.choice([0, 0, 0, 0.15])
+
+    def val(d, nan_ok=True):
+        if nan_ok and not _is_int(d) and rng.random() < nanr:
+            return core.NAN
+        return uniq.pop() if uniq and rng.random() < 0.65 else rng.choice(pool)
+
+    def arr(d):
+        return [[val(d) for _ in range(nb)] for _ in range(na)]
+    sources = [arr(d) for d in sdt]
+    obs = [[(sources[0][i][j] if rng.random() < 0.25 and not (_is_int(odt) and math.isnan(sources[0][i][j])) else val(odt))
+            for j in range(nb)] for i in range(na)]
+    a = rng.choice([0.25, 0.5, 1.0, 2.0])
+    delta = rng.choice([None, 0, 0.125, 0.0625, 0.25, 1.0])
+    alpha = rng.choice([0.25, 0.5, 0.75, 0.125])
+    tkind = rng.choice(["list", "list", "da"])
+    thetas = [rng.choice(pool + [v for row in obs for v in row if not math.isnan(v)]) + rng.choice([0, 0, 0.125, -0.5, 1])
+              for _ in range(rng.randint(1, 3))]
+    # steps: simulate the sizes so that every step is applicable
+    steps, n_src, cur_dt, n_th = [], ns, list(sdt), len(thetas)
+    names = [o for o, w in STATE_OPS for _ in range(w)]
+    for _ in range(rng.randint(2, 5)):
+        op = rng.choice(names)
+        if op == "pop" and n_src < 2:
+            op = "append"
+        if op == "append_theta" and tkind != "list":
+            op = "set_theta"
+        if op in ("append", "insert") and n_src >= 4:
+            op = "set_src"
+        i, j = rng.randrange(na), rng.randrange(nb)
+        if op in ("append", "insert"):
+            d = extra_dt.pop()
+            steps.append(dict(op=op, values=arr(d), dtype=d))
+            cur_dt = cur_dt + [d] if op == "append" else [d] + cur_dt
+            n_src += 1
+        elif op == "pop":
+            steps.append(dict(op=op))
+            cur_dt.pop()
+            n_src -= 1
+        elif op == "replace_src":
+            k, d = rng.randrange(n_src), extra_dt.pop()
+            steps.append(dict(op=op, k=k, values=arr(d), dtype=d))
+            cur_dt[k] = d
+        elif op in ("set_obs", "set_obs_da"):
+            v = core.NAN if (not _is_int(odt) and rng.random() < 0.1) else val(odt, nan_ok=False)
+            steps.append(dict(op=op, i=i, j=j, v=v))
+        elif op in ("set_src", "set_src_da"):
+            k = rng.randrange(n_src)
+            v = core.NAN if (not _is_int(cur_dt[k]) and rng.random() < 0.1) else val(cur_dt[k], nan_ok=False)
+            steps.append(dict(op=op, k=k, i=i, j=j, v=v))
+        elif op == "delta":
+            steps.append(dict(op=op, v=rng.choice([None, 0, 0.125, 0.0625, 0.25, 1.0, 0.5])))
+        elif op == "fn":
+            steps.append(dict(op=op, v=rng.choice(FUNCS)))
+        elif op == "set_theta":
+            steps.append(dict(op=op, i=rng.randrange(n_th), v=rng.choice(pool) + rng.choice([0, 0.125, -0.5, 2])))
+        elif op == "append_theta":
+            steps.append(dict(op=op, v=rng.choice(pool) + rng.choice([0, 0.125, -0.5, 2])))
+            n_th += 1
+        elif op == "other":
+            d = rng.choice(["float64", "float64", "int64" if whole else "float32"])
+            steps.append(dict(op=op, sources=[[[val(d, nan_ok=False) for _ in range(2)]]], obs=[[val(d, nan_ok=False) for _ in range(2)]],
+                              dtype=d))
+        else:
+            steps.append(dict(op=op))
+    return dict(fn=fn, alpha=alpha, a=a, delta=delta, sources=sources, sdtypes=sdt, obs=obs, odtype=odt,
+                thetas=thetas, theta_kind=tkind, steps=steps, state=True)
+
+
+def state_apply(st, step):
+    """the values / options after `step` (pure; the expected side of every check is computed from this)"""
+    import copy
+    st = copy.deepcopy(st)
+    op = step["op"]
+    if op == "append":
+        st["sources"].append(copy.deepcopy(step["values"])); st["sdtypes"].append(step["dtype"])
+    elif op == "insert":
+        st["sources"].insert(0, copy.deepcopy(step["values"])); st["sdtypes"].insert(0, step["dtype"])
+    elif op == "pop":
+        st["sources"].pop(); st["sdtypes"].pop()
+    elif op == "replace_src":
+        st["sources"][step["k"]] = copy.deepcopy(step["values"]); st["sdtypes"][step["k"]] = step["dtype"]
+    elif op in ("set_obs", "set_obs_da"):
+        st["obs"][step["i"]][step["j"]] = step["v"]
+    elif op in ("set_src", "set_src_da"):
+        st["sources"][step["k"]][step["i"]][step["j"]] = step["v"]
+    elif op == "delta":
+        st["delta"] = step["v"]
+    elif op == "fn":
+        st["fn"] = step["v"]
+    elif op == "set_theta":
+        st["thetas"][step["i"]] = step["v"]
+    elif op == "append_theta":
+        st["thetas"].append(step["v"])
+    return st
+
+
+def state_snapshots(case):
+    st = {k: case[k] for k in ("fn", "alpha", "a", "delta", "sources", "sdtypes", "obs", "odtype", "thetas")}
+    st = state_apply(st, {"op": "same"})
+    out = [st]
+    for step in case["steps"]:
+        st = state_apply(st, step)
+        out.append(st)
+    return out
+
+
+def _state_tc(st):
+    """the snapshot as a murphy_thetas case of the plain stream (huber_a only for the Huber functional)"""
+    return dict(fn=st["fn"], sources=st["sources"], obs=st["obs"], a=st["a"] if st["fn"] == "huber" else None,
+                delta=st["delta"], alpha=st["alpha"], sdtypes=st["sdtypes"], odtype=st["odtype"])
+
+
+def state_ops(case):
+    """driver ops of every snapshot: the Spec loss of every source, and the Spec cells / means of source 0 at the thetas"""
+    ops, spans = [], []
+    for st in state_snapshots(case):
+        tc = _state_tc(st)
+        o = loss_ops(tc)
+        cases = [[core.fl_str(f), core.fl_str(ob)] for rf, ro in zip(st["sources"][0], st["obs"]) for f, ob in zip(rf, ro)]
+        o.append({"op": "c11.spec", "args": {"fn": tc["fn"], "alpha": core.fl_str(tc["alpha"]),
+                                             "a": core.fl_str(tc["a"]) if tc["a"] is not None else None,
+                                             "cases": cases, "thetas": [core.fl_str(t) for t in st["thetas"]]}})
+        spans.append((len(ops), len(ops) + len(o)))
+        ops += o
+    return ops, spans
+
+
+def _state_da(values, dtype):
+    na, nb = len(values), len(values[0])
+    return xr.DataArray(_stored(values, dtype), dims=[fresh("a"), fresh("b")],
+                        coords={"a": list(range(na)), "b": [_state_b(j) for j in range(nb)]})
+
+
+def _state_build(st, theta_kind):
+    th = [float(t) for t in st["thetas"]]
+    if theta_kind == "da":
+        th = xr.DataArray(np.array(th, dtype=float), dims=["theta"], coords={"theta": list(range(len(th)))})
+    return dict(sources=[_state_da(s, d) for s, d in zip(st["sources"], st["sdtypes"])],
+                obs=_state_da(st["obs"], st["odtype"]), thetas=th)
+
+
+def _state_do(objs, step, st_after, theta_kind):
+    """the caller's own action on the live objects"""
+    op = step["op"]
+    if op == "append":
+        objs["sources"].append(_state_da(step["values"], step["dtype"]))
+    elif op == "insert":
+        objs["sources"].insert(0, _state_da(step["values"], step["dtype"]))
+    elif op == "pop":
+        objs["sources"].pop()
+    elif op == "replace_src":
+        objs["sources"][step["k"]] = _state_da(step["values"], step["dtype"])
+    elif op == "set_obs":
+        objs["obs"].values[step["i"], step["j"]] = step["v"]
+    elif op == "set_obs_da":
+        objs["obs"].loc[dict(a=step["i"], b=_state_b(step["j"]))] = step["v"]
+    elif op == "set_src":
+        objs["sources"][step["k"]].values[step["i"], step["j"]] = step["v"]
+    elif op == "set_src_da":
+        objs["sources"][step["k"]][dict(a=step["i"], b=step["j"])] = step["v"]
+    elif op == "set_theta":
+        if theta_kind == "da":
+            objs["thetas"].values[step["i"]] = step["v"]
+        else:
+            objs["thetas"][step["i"]] = float(step["v"])
+    elif op == "append_theta":
+        objs["thetas"].append(float(step["v"]))
+    elif op == "rebuild":            # other objects, equal content
+        objs.update(_state_build(st_after, theta_kind))
+    elif op == "relist":             # another list object holding the same arrays
+        objs["sources"] = list(objs["sources"])
+
+
+def _same_numbers(x, y):
+    x, y = np.asarray(x, dtype=float), np.asarray(y, dtype=float)
+    return x.shape == y.shape and bool(np.all((x == y) | (np.isnan(x) & np.isnan(y))))
+
+
+def state_sequence_fails(case, res, spans):
+    """run the sequence on the implementation; failure tuples (site, signature, observed, expected, tags, step index)"""
+    from scores.continuous import murphy_score, murphy_thetas
+    snaps = state_snapshots(case)
+    tk = case.get("theta_kind") or "list"
+    objs = _state_build(snaps[0], tk)
+    dts = set(case["sdtypes"]) | {case["odtype"]} | {s["dtype"] for s in case["steps"] if "dtype" in s}
+    tol = _tol(*dts)
+    fails = []
+    for t, st in enumerate(snaps):
+        step = case["steps"][t - 1] if t else {"op": "first-call"}
+        tags = {"state": "sequence", "step": t, "op": step["op"], "fn": st["fn"]}
+        try:
+            if t:
+                _state_do(objs, step, st, tk)
+                if step["op"] == "other":
+                    otc = dict(fn=st["fn"], sources=step["sources"], obs=step["obs"], a=st["a"] if st["fn"] == "huber" else None,
+                               delta=st["delta"], sdtypes=[step["dtype"]], odtype=step["dtype"])
+                    got = call_thetas(otc)
+                    if got != kink_spec(otc):
+                        fails.append(("murphy_thetas", "theta-set", got, kink_spec(otc), dict(tags, data="other"), t))
+            tc = _state_tc(st)
+            spec = kink_spec(tc)
+            lo, hi = spans[t]
+            losses = [r["loss"] for r in res[lo:hi - 1]]
+            vres = res[hi - 1]
+            n_before = len(objs["sources"])
+            th = [float(x) for x in murphy_thetas(objs["sources"], objs["obs"], fresh(tc["fn"]), huber_a=tc["a"],
+                                                  left_limit_delta=tc["delta"])]
+            if th != spec:
+                missing = [x for x in spec if x not in th]
+                fails.append(("murphy_thetas", "theta-set", th, spec, dict(tags, missing=missing[:6]), t))
+            # the curve of every CURRENT source on the live objects: constant / affine between the kinks, integral = loss
+            if spec:
+                for s in range(len(st["sources"])):
+                    def get_curve(pts, s=s):
+                        with np.errstate(all="ignore"):
+                            r = murphy_score(objs["sources"][s], objs["obs"], [float(p) for p in pts], functional=tc["fn"],
+                                             alpha=tc["alpha"], huber_a=tc["a"])
+                        v = np.asarray(r["total"].values)
+                        if v.shape != (len(pts),):
+                            raise _Unexpected("murphy_score.total", "result-shape", list(v.shape), [len(pts)], tags)
+                        return [float(x) for x in v]
+                    for f in _source_curve_fails(tc, spec, tol, dict(tags, source=s), get_curve, losses[s]):
+                        fails.append(tuple(f) + (t,))
+            # murphy_score at the caller's own (live) thetas object: Spec cells and means of the current values
+            na, nb, nth = len(st["obs"]), len(st["obs"][0]), len(st["thetas"])
+            with np.errstate(all="ignore"):
+                r_all = murphy_score(objs["sources"][0], objs["obs"], objs["thetas"], functional=tc["fn"], alpha=tc["alpha"],
+                                     huber_a=tc["a"], decomposition=True, preserve_dims=fresh("all"))
+                r_red = murphy_score(objs["sources"][0], objs["obs"], objs["thetas"], functional=tc["fn"], alpha=tc["alpha"],
+                                     huber_a=tc["a"], decomposition=True)
+            for name, k in VARS:
+                got = _vals(r_all, name, ("theta", "a", "b"), (nth, na, nb), tags)
+                exp = [[[vres["cells"][x][i * nb + j][k] for j in range(nb)] for i in range(na)] for x in range(nth)]
+                if not all(core.close(float(got[x, i, j]), exp[x][i][j], **tol)
+                           for x in range(nth) for i in range(na) for j in range(nb)):
+                    fails.append(("murphy_score." + name, "cell-value", got.tolist(), exp, tags, t))
+                    break
+                gm = _vals(r_red, name, ("theta",), (nth,), tags)
+                em = [vres["mean"][x][k] for x in range(nth)]
+                if not all(core.close(float(gm[x]), em[x], **tol) for x in range(nth)):
+                    fails.append(("murphy_score." + name, "mean-value", gm.tolist(), em, tags, t))
+                    break
+            # the calls leave the caller's objects alone
+            ok = (len(objs["sources"]) == n_before == len(st["sources"])
+                  and all(_same_numbers(o.values, v) and str(o.dtype) == str(_stored(v, d).dtype)
+                          for o, v, d in zip(objs["sources"], st["sources"], st["sdtypes"]))
+                  and _same_numbers(objs["obs"].values, st["obs"])
+                  and _same_numbers(objs["thetas"].values if tk == "da" else objs["thetas"], st["thetas"]))
+            if not ok:
+                fails.append(("murphy_thetas", "call-modifies-its-inputs",
+                              dict(sources=[o.values.tolist() for o in objs["sources"]], obs=objs["obs"].values.tolist(),
+                                   thetas=np.asarray(objs["thetas"], dtype=float).tolist()),
+                              dict(sources=st["sources"], obs=st["obs"], thetas=st["thetas"]), tags, t))
+        except _Unexpected as u:
+            fails.append(tuple(u.args) + (t,))
+        except Exception as ex:  # noqa: BLE001
+            fails.append(("murphy_thetas/murphy_score", "exception", core.exc_class(ex) + ": " + str(ex)[:200],
+                          "thetas and scores of the current values", tags, t))
+        if fails:
+            break
+    return fails
+
+
+def state_nontrivial(case):
+    """some in-place change of the live list / arrays changes the kink set"""
+    snaps = state_snapshots(case)
+    return any(step["op"] in STATE_INPLACE and kink_spec(_state_tc(a)) != kink_spec(_state_tc(b))
+               for step, a, b in zip(case["steps"], snaps, snaps[1:]))
+
+
+def state_oracle(ctx, n):
+    cases = [gen_state_case(ctx.rng) for _ in range(n)]
+    cases += [gen_state_case(ctx.rng, fn=fn) for fn in FUNCS for _ in range(max(2, n // 15))]
+    allops, where = [], []
+    for c in cases:
+        ops, spans = state_ops(c)
+        where.append((len(allops), spans))
+        allops += ops
+    res = core.run_driver("C11", allops)
+    for c, (off, spans) in zip(cases, where):
+        ctx.case("state:repeated-calls-on-live-objects", c, nontrivial=state_nontrivial(c))
+        ctx.tag("state:" + c["fn"])
+        ctx.tag("state:thetas=" + c["theta_kind"])
+        for s in c["steps"]:
+            ctx.tag("state-step:" + s["op"])
+        sub = res[off: off + spans[-1][1]]
+        for site, sig, obs_, exp, tags, t in state_sequence_fails(c, sub, spans):
+            # the recorded sequence stops at the failing step
+            ctx.fail("state:repeated-calls-on-live-objects", "property", site, sig,
+                     dict(c, steps=c["steps"][:t], check="state-sequence"), observed=obs_, expected=exp, tags=tags,
+                     theorem={"kink-inside-cell": "kinks_subset_thetas", "integral!=loss": "integral_eq_loss",
+                              "theta-set": "kinks_subset_thetas", "jump-without-left-limit": "kinks_subset_thetas",
+                              "cell-value": "cell_eq_spec", "mean-value": "cell_eq_spec"}.get(sig))
+
+
 # ------------------------------------------------------------------------------------------ malformed
 def gen_bad(rng):
     fn = rng.choice(FUNCS + ["Huber", "median", "QUANTILE", ""])
@@ -1016,6 +1356,7 @@ def oracle(ctx, boost):
                      theorem={"kink-inside-cell": "kinks_subset_thetas", "integral!=loss": "integral_eq_loss",
                               "theta-set": "kinks_subset_thetas", "jump-without-left-limit": "kinks_subset_thetas"}.get(sig))
     labelled_oracle(ctx, ctx.n(70, 1500) * m)
+    state_oracle(ctx, ctx.n(36, 900) * m)
     mixed_shape_probe(ctx)
 
 
@@ -1086,6 +1427,9 @@ def replay(ctx, payload):
     if chk == "thetas-labelled":
         res = core.run_driver("C11", labelled_loss_ops(case))
         return bool(labelled_thetas_property(case, [r["loss"] for r in res]))
+    if chk == "state-sequence":
+        ops, spans = state_ops(case)
+        return bool(state_sequence_fails(case, core.run_driver("C11", ops), spans))
     if chk == "thetas-labelled-model":
         try:
             return call_thetas_labelled(case) != lab_allowed(case)
